@@ -2067,6 +2067,11 @@ class TrajectoryStore:
         names = [Path(p).name for p in input_stores]
         if len(set(names)) != len(names):
             raise ValueError('Merge inputs must have distinct file names')
+        # The merged flight ID index lives in the output directory under this
+        # name: an input of the same name would be taken for it (or be
+        # overwritten by it).
+        if '_index.nc' in names:
+            raise ValueError('Merge inputs must not be named "_index.nc"')
         return input_stores
 
     @staticmethod
